@@ -49,6 +49,8 @@ def gen_opts(rng):
         opts["COLLECT_PERF_STATS"] = True
     if not opts:
         opts[rng.choice(BOOL_OPTS[:-1])] = True
+    if opts.get("DUMP_SCHEDULER_STATE") and rng.random() < 0.6:
+        opts["SCHEDULER_STATE_DUMP_INTERVAL"] = 0     # the time-based state dump really happens (every iteration)
     big = rng.random() < 0.4
     opts["_clock"] = [rng.choice(STEPS if big else STEPS[:6]) for _ in range(rng.randint(1, 7))]
     return opts
@@ -61,6 +63,7 @@ def plan(tier, seed):
     profs = [p for p, w in MIX for _ in range(w)]
     for _ in range(n):
         c = coregen.gen_case(rng, rng.choice(profs), ntops=rng.choice([1, 1, 2]))
+        c["cfg"].pop("keepDeps", None)     # here KEEP_DEPENDENCIES is one of the options under test
         c["opts"] = gen_opts(rng)
         cases.append(c)
     return cases
